@@ -14,6 +14,12 @@ def run(ctx):
     res = vlib.Result(ctx, "exploration")
     q = ctx.quick
     evs, _, _ = run_harness(ctx, "pub", "TestVerifRequests", {"random": 400 if q else 4000, "rounds": 4 if q else 25}, timeout=1500)
+    # every request issued while browsing the UI worlds (key sessions and wild sessions of the ui driver)
+    from checks import uidrv
+    browsing = [e for e in uidrv.ui_events(ctx, res, frames=False) if e["ev"] == "conn"]
+    evs.append({"ev": "case", "id": 900000, "mode": 8, "desc": "requests issued while browsing both UI worlds", "conns": len(browsing)})
+    evs += browsing
+    res.extra["connections_while_browsing"] = len(browsing)
     bad, r = vlib.judge(ctx, "T_Request", "T_Request.cfg", evs)
     res.add_tlc(r)
     case = None
